@@ -148,8 +148,41 @@ def _kind_chunk(chunk):
     return len(chunk), nt, fails
 
 
+def _classes_chunk(chunk):
+    """two lists of DIFFERENT classes in one process are given the identical argument string; what each does with it depends on its
+    own class only (a plain CompilerArgs — static linker, rustc ... — has no prepend / override arguments, and only library files are once-only)"""
+    import mesonbuild.arglist as AL
+    C, P = _cls(), AL.CompilerArgs
+    fails, nt = [], 0
+    for kind, a, order in chunk:
+        nt += 1
+        want_c = {'override-front': [a, 'x.c'], 'override-last': ['x.c', a], 'once': ['x.c', a]}[kind]
+        # (a library FILE is once-only for every class — the statement's "library file" — everything else is unclassified for a plain list)
+        want_p = ['x.c', a] if a.startswith('/') else ['x.c', a, a]
+        got = {}
+        for which in order:
+            r = (C if which == 'clike' else P)(None)
+            r += ['x.c']
+            r += [a]
+            r += [a]
+            got[which] = list(r)
+        if got['clike'] != want_c or got['plain'] != want_p:
+            fails.append({'case': {'kind': kind, 'argument': a, 'order': list(order)}, 'stage': 'classes',
+                          'detail': f'lists built in the order {list(order)}: the C-like list gives {got["clike"]!r} (statement: {want_c!r}), the plain list gives {got["plain"]!r} (a plain list classifies library files only: {want_p!r})'})
+    return len(chunk), nt, fails
+
+
 def run(REG, tier, seed, jobs):
     parts = []
+    cc, n_ = [], 0
+    for order in (('plain', 'clike'), ('clike', 'plain')):
+        for kind, tmpl in (('override-front', '-I/u{}'), ('override-front', '-L/u{}'), ('override-last', '-DU{}=1'), ('override-last', '-isystem/u{}'), ('once', '-lu{}'), ('once', '/abs/libu{}.a'), ('once', '/d/libu{}.so.1')):
+            n_ += 1
+            cc.append((kind, tmpl.format(n_), order))        # a fresh argument string per case: no case sees a cache entry of another
+    ev, nt, fails = pmap(_classes_chunk, chunked(iter(cc), 1), jobs)
+    parts.append({'name': 'C13/bounded/lists-of-different-classes-in-one-process', 'function': 'CompilerArgs._should_prepend / _can_dedup (per-class classification)',
+                  'bound': f'{len(cc)} cases: an argument of each classified kind given to a plain CompilerArgs and to a CLikeCompilerArgs in the same process, in both orders',
+                  'evaluations': ev, 'distinct_nontrivial': nt, 'rule': 'every case', 'exhaustive': True, 'failures': fails})
     kc = [(k, a) for k, xs in KINDS.items() for a in xs]
     ev, nt, fails = pmap(_kind_chunk, chunked(iter(kc), 8), jobs)
     parts.append({'name': 'C13/bounded/argument-kinds-vs-statement', 'function': 'CLikeCompilerArgs (+= three times, then read): _can_dedup / _should_prepend tables and patterns',
